@@ -1,7 +1,7 @@
 (* C02 — Validity: decisions extend the instance base and stem from an honest input. *)
 From Coq Require Import ZArith List Bool.
 From F3 Require Import Spec SpecProofs.
-From F3 Require Instance InstanceNoPanic Refine RefineNet.
+From F3 Require Instance InstanceNoPanic Refine RefineNet InstanceQuorum HappyPath QuorumProofs.
 Import ListNotations.
 Open Scope Z_scope.
 
@@ -39,3 +39,42 @@ Theorem c02_network_validity : forall (c : Instance.config) (honest : nat -> boo
     Instance.j_value j <> [] /\ exists q, honest q = true /\ is_prefix (Instance.j_value j) (input q).
 Proof. exact RefineNet.network_validity. Qed.
 Print Assumptions c02_network_validity.
+
+(* second sentence (happy path), step by step on the instance model: with a strong quorum for the value at hand the participant
+   moves on FOR THAT VALUE at once (no timeout): QUALITY quorum for its input => PREPARE input; PREPARE quorum for the proposal
+   => COMMIT it with that quorum as justification; COMMIT quorum => DECIDE; DECIDE quorum => the decision is reported.
+   (QS: the invariant of quorum states built by one vote per sender, InstanceQuorum.v.)  The composition over a network under
+   timing assumptions is not proved: it is monitored on timely runs of real participants. *)
+Definition hp_committee (c : Instance.config) : Prop :=
+  0 < Instance.c_total c < QuorumProofs.two62 /\ (forall s, 0 <= Instance.power_of c s) /\
+  (forall l, NoDup l -> InstanceDecide.sum_power c l <= Instance.c_total c).
+Theorem c02_happy_quality : forall c, hp_committee c -> forall i, Instance.i_input i <> [] -> Instance.i_proposal i = Instance.i_input i ->
+  Instance.q_has_sq (Instance.i_quality i) (Instance.i_input i) = true ->
+  exists rest, Instance.i_out (Instance.try_quality c i) =
+                 Instance.OBroadcast (Instance.i_round i) Instance.PREPARE (Instance.i_input i) None false :: rest /\
+               Instance.i_proposal (Instance.try_quality c i) = Instance.i_input i /\ Instance.i_phase (Instance.try_quality c i) = Instance.PREPARE.
+Proof. intros c (H1 & H2 & H3). apply HappyPath.happy_quality; assumption. Qed.
+Print Assumptions c02_happy_quality.
+Theorem c02_happy_prepare : forall c, hp_committee c -> forall i,
+  InstanceQuorum.QS c (Instance.r_prep (Instance.get_round i (Instance.i_round i))) -> Instance.i_proposal i <> [] ->
+  Instance.q_has_sq (Instance.r_prep (Instance.get_round i (Instance.i_round i))) (Instance.i_proposal i) = true ->
+  exists sg rest, Instance.i_out (Instance.try_prepare c i) =
+      Instance.OBroadcast (Instance.i_round i) Instance.COMMIT (Instance.i_proposal i)
+        (Some (Instance.build_just (Instance.i_round i) Instance.PREPARE (Instance.i_proposal i) sg)) false :: rest /\
+    Instance.i_phase (Instance.try_prepare c i) = Instance.COMMIT.
+Proof. intros c (H1 & H2 & H3). apply HappyPath.happy_prepare; assumption. Qed.
+Print Assumptions c02_happy_prepare.
+Theorem c02_happy_commit : forall c, hp_committee c -> forall i round sway x v,
+  InstanceQuorum.QS c (Instance.r_comm (Instance.get_round i round)) ->
+  Instance.q_find_sq_value (Instance.r_comm (Instance.get_round i round)) = Instance.FsvSome (x :: v) ->
+  exists sg rest, Instance.i_out (Instance.try_commit c i round sway) =
+      Instance.OBroadcast 0 Instance.DECIDE (x :: v) (Some (Instance.build_just round Instance.COMMIT (x :: v) sg)) false :: rest /\
+    Instance.i_phase (Instance.try_commit c i round sway) = Instance.DECIDE.
+Proof. intros c (H1 & H2 & H3). apply HappyPath.happy_commit; assumption. Qed.
+Print Assumptions c02_happy_commit.
+Theorem c02_happy_decide : forall c, hp_committee c -> forall i v,
+  InstanceQuorum.QS c (Instance.i_decision i) -> Instance.q_find_sq_value (Instance.i_decision i) = Instance.FsvSome v ->
+  exists sg, Instance.i_term (Instance.try_decide c i) = Some (Instance.build_just 0 Instance.DECIDE v sg) /\
+             Instance.i_phase (Instance.try_decide c i) = Instance.TERMINATED.
+Proof. intros c (H1 & H2 & H3). apply HappyPath.happy_decide; assumption. Qed.
+Print Assumptions c02_happy_decide.
